@@ -87,6 +87,8 @@ def run(ctx):
         raise AnalysisError('fewer than 3 _MatchState constructions found')
 
     check_registries(ctx, m)
+    check_leaf_sets(ctx)
+    check_prefilter_soundness(ctx, m)
 
 
 # ----------------------------------------------------------------------------------------------------------------------
@@ -357,3 +359,151 @@ def check_registries(ctx, m):
     ctx.check('R17.4', '_LEAF_ASTS_FUNCS.get(pat_cls, _leaf_asts_default)(pat)' in txt and 'if walk_all is None or' in txt and 'walk_all = True' in txt,
               'match', 'search', 'walk_all = _LEAF_ASTS_FUNCS.get(...)(pat); None -> True',
               'search() must derive its walk filter from _LEAF_ASTS_FUNCS and treat an indeterminate (None) filter as "all nodes"', s.lineno)
+
+
+def check_leaf_sets(ctx):
+    """R17.5: the type -> leaf-types table that search() pre-filters with must agree with the class hierarchy."""
+    from .. import tables as T
+    ctx.rule('R17.5', 'asttypes.AST2ASTSLEAF[K] == all leaf classes of the grammar that are subclasses of K (class hierarchy of '
+                      'the ast module + the repo\'s own slice classes); the category sets ASTS_LEAF_<base> likewise', 130)
+    F = T.fields(ctx)
+    leaves = list(F)
+    A = ctx.ev.get('asttypes', 'AST2ASTSLEAF')
+    if not isinstance(A, dict) or len(A) < 120:
+        raise AnalysisError('asttypes.AST2ASTSLEAF did not evaluate')
+
+    def in_interp(c):   # class exists in the grammar of the analysing interpreter (else its base is a dummy)
+        return not c.is_ast or getattr(c, 'pyclass', None) is not None
+
+    def expected(k):
+        # FunctionType (ast.parse(mode='func_type') root) is a `mod` in the stdlib hierarchy but pfst documents it as not
+        # supported (ASTS_LEAF_MISC); it can never occur inside a tree that is searched
+        return {l for l in leaves if l.issub(k) and not (l.name == 'FunctionType' and k.name != 'FunctionType' and k.name != 'AST')}
+    for k, v in A.items():
+        if not isinstance(k, ClassTok):
+            continue
+        if not isinstance(v, (set, frozenset)):
+            ctx.bad('R17.5', 'asttypes', 'AST2ASTSLEAF', k.name, f'value is not a set: {v!r}')
+            continue
+        exp = expected(k)
+        got = {c for c in v if isinstance(c, ClassTok)}
+        missing = exp - got
+        extra = {c for c in got - exp if in_interp(c) and in_interp(k) and c.module == 'ast' or (c.module != 'ast' and k.module != 'ast' and c not in exp and in_interp(c) and c.module != 'asttypes')}
+        extra = {c for c in got - exp if in_interp(c) and c.node is None} if in_interp(k) else set()
+        ctx.check('R17.5', not missing and not extra, 'asttypes', 'AST2ASTSLEAF', f'{k.name}: {len(got)} leaf types',
+                  f'AST2ASTSLEAF[{k.name}] ' + (f'lacks {sorted(c.name for c in missing)}' if missing else '') +
+                  (f' has foreign {sorted(c.name for c in extra)}' if extra else '') +
+                  ': search() pre-filters the walk with this set, so patterns typed by this class silently skip those nodes',
+                  sample={'type': k.name, 'leafs': len(got)})
+    cats = {'ASTS_LEAF_MOD': 'mod', 'ASTS_LEAF_STMT': 'stmt', 'ASTS_LEAF_EXPR': 'expr', 'ASTS_LEAF_EXPR_CONTEXT': 'expr_context',
+            'ASTS_LEAF_BOOLOP': 'boolop', 'ASTS_LEAF_OPERATOR': 'operator', 'ASTS_LEAF_UNARYOP': 'unaryop', 'ASTS_LEAF_CMPOP': 'cmpop',
+            'ASTS_LEAF_PATTERN': 'pattern', 'ASTS_LEAF_TYPE_PARAM': 'type_param', 'ASTS_LEAF__SLICE': '_slice'}
+    env = ctx.ev.env('asttypes')
+    for name, base in cats.items():
+        v = env.get(name)
+        b = env.get(base)
+        if not isinstance(v, (set, frozenset)) or not isinstance(b, ClassTok):
+            raise AnalysisError(f'asttypes.{name} / {base} did not evaluate')
+        exp = expected(b)
+        got = {c for c in v if isinstance(c, ClassTok)}
+        missing = exp - got
+        extra = {c for c in got - exp if in_interp(c) and c.node is None}
+        ctx.check('R17.5', not missing and not extra, 'asttypes', name, f'{name} vs subclasses of {base}',
+                  f'{name} ' + (f'lacks {sorted(c.name for c in missing)} ' if missing else '') +
+                  (f'has foreign {sorted(c.name for c in extra)}' if extra else ''))
+
+
+def check_prefilter_soundness(ctx, m):
+    """R17.6: the search pre-filter is an *upper bound* of the node types a pattern can match."""
+    from ..struct import enclosing_tests, parent_map
+    from .. import tables as T
+    ctx.rule('R17.6', 'leaf-type sets are upper bounds: they are united / intersected but complemented only for a bare type '
+                      'pattern (which matches every node of its types); a matcher that accepts a whole base class '
+                      '(isinstance(tgt, <base>)) has a pre-filter covering all leaf types of that base', 4)
+    n_compl = 0
+    for q, fis in m.funcs.items():
+        if not (q.endswith('._leaf_asts') or q.startswith('_leaf_asts')):
+            continue
+        for fi in fis:
+            par = parent_map(fi.node)
+            # names bound from a (recursive) pre-filter call
+            bounds = set()
+            for n in walk_no_nested(fi.node):
+                if isinstance(n, (ast.Assign, ast.NamedExpr)):
+                    v = n.value
+                    tg = n.targets[0] if isinstance(n, ast.Assign) else n.target
+                    if isinstance(tg, ast.Name) and isinstance(v, ast.Call) and ('_LEAF_ASTS_FUNCS' in norm(v, 400) or '_leaf_asts' in norm(v.func, 200)):
+                        bounds.add(tg.id)
+            for n in walk_no_nested(fi.node):
+                if isinstance(n, ast.BinOp) and isinstance(n.op, ast.Sub) and isinstance(n.right, ast.Name) and n.right.id in bounds:
+                    n_compl += 1
+                    # dominance on the CFG: every path to the complement passes the "pattern is a bare type" edge
+                    cfg = CFG(fi.node)
+                    sub_nodes = [c for c in cfg.nodes if any(x is n for x in subnodes(cfg, c))]
+                    gate = []
+                    for c in cfg.nodes:
+                        if c.kind == 'test':
+                            t = norm(c.ast)
+                            if t.startswith('not isinstance(p, type)'):
+                                gate.append((c.id, 'false'))
+                            elif t.startswith('isinstance(p, type)'):
+                                gate.append((c.id, 'true'))
+                    if gate and sub_nodes:
+                        reach = cfg.reachable(cfg.entry, lambda nd, lab, s_: (nd.id, lab) not in gate)
+                        ok = all(c.id not in reach for c in sub_nodes)
+                    else:
+                        ok = False
+                    ctx.check('R17.6', ok, 'match', fi.qualname, n,
+                              f'`{norm(n)}` complements an upper bound: `{n.right.id}` lists the types the inner pattern *may* match; '
+                              f'unless that pattern is a bare type it rejects some nodes of those types, which the complement then '
+                              f'hides from search()', n.lineno, sample=norm(n))
+    if n_compl < 1:
+        raise AnalysisError('no complement of a leaf-type set found (MNOT._leaf_asts anchor vanished)')
+    # matcher acceptance vs default pre-filter for AST-instance patterns
+    F = T.fields(ctx)
+    M = ctx.ev.get('match', '_MATCH_FUNCS')
+    A = ctx.ev.get('asttypes', 'AST2ASTSLEAF')
+    env = dict(ctx.ev.env('match'))
+    dflt = ctx.repo.funcs('match', '_leaf_asts_default')[0]
+    # special cases inside `if isinstance(pat, AST):`
+    special = []   # [(ClassTok tested, ClassTok whose leaf set is returned)]
+    for n in walk_no_nested(dflt.node):
+        if isinstance(n, ast.If) and norm(n.test) == 'isinstance(pat, AST)':
+            for st in n.body:
+                if isinstance(st, ast.If) and isinstance(st.test, ast.Call) and call_name(st.test) == 'isinstance' and \
+                        norm(st.test.args[0]) == 'pat':
+                    x = ctx.ev.eval(st.test.args[1], dict(env), 'match')
+                    r = st.body[0]
+                    if isinstance(x, ClassTok) and isinstance(r, ast.Return) and isinstance(r.value, ast.Subscript) and \
+                            norm(r.value.value) == 'AST2ASTSLEAF':
+                        y = ctx.ev.eval(r.value.slice, dict(env), 'match')
+                        if isinstance(y, ClassTok):
+                            special.append((x, y))
+
+    def prefilter(k):
+        for x, y in special:
+            if k.issub(x):
+                return set(A.get(y, ()))
+        return set(A.get(k, ()))
+    n_m = 0
+    for k, v in M.items():
+        if not (isinstance(k, ClassTok) and (k.is_ast or k.module == 'asttypes') and isinstance(v, FuncTok)):
+            continue
+        fis = ctx.repo.mod(v.module).func(v.qualname)
+        if not fis or v.name == '_match_node':
+            continue
+        fn = fis[0].node
+        for n in walk_no_nested(fn):
+            if isinstance(n, ast.Call) and call_name(n) == 'isinstance' and len(n.args) == 2 and norm(n.args[0]) == 'tgt':
+                t = ctx.ev.eval(n.args[1], dict(env), 'match')
+                if isinstance(t, ClassTok) and t in A and t is not k and k.issub(t):
+                    n_m += 1
+                    need = set(A[t])
+                    have = prefilter(k)
+                    ctx.check('R17.6', need <= have, 'match', '_leaf_asts_default', f'{k.name} instance pattern matched by {v.name}',
+                              f'{v.name} accepts any {t.name} target for a {k.name}() pattern (isinstance(tgt, {t.name})), but search() '
+                              f'pre-filters that pattern to {sorted(c.name for c in have)}: nodes of types '
+                              f'{sorted(c.name for c in need - have)} are never offered to the matcher', dflt.lineno,
+                              sample={'pattern': k.name, 'matcher': v.name, 'prefilter': sorted(c.name for c in have)})
+    if n_m < 3:
+        raise AnalysisError('expr_context matcher anchor vanished (R17.6)')
